@@ -129,6 +129,9 @@ structure Conn where
   sess : Option Nat := none
   /-- the reader runs `readFuncTCP` (interleaved frames are accepted) rather than `readFuncStandard` -/
   tcpMode : Bool := false
+  /-- a read deadline is pending on the connection (`nconn.SetReadDeadline`): a silent client is
+  disconnected when it expires -/
+  hasDeadline : Bool := true
   deriving Repr, Inhabited
 
 inductive Ev
@@ -463,13 +466,44 @@ def setMode (srv : Server) (c : Nat) : Err → Server
   | .sw b => { srv with conns := srv.conns.map fun x => if x.id == c then { x with tcpMode := b } else x }
   | _ => srv
 
+/-- The read deadline a connection gets at the top of its read loop: `readFuncTCP` always sets one;
+`readFuncStandard` sets one unless the connection's session is recording over UDP (FFmpeg sends no
+keep-alives while it records; that session ends by its stream timeout and takes the connection
+with it). -/
+def deadlineRule (srv : Server) (x : Conn) : Bool :=
+  x.tcpMode || !(match x.sess with
+    | none => false
+    | some sid =>
+      match findSession srv sid with
+      | none => false
+      | some ss => ss.state == .record && ss.transport == some .udp)
+
+/-- was this session moved from record to pre-record by the request (PAUSE)?  The session then
+restores the read deadline of every connection attached to it. -/
+def pausedFromRecord (before after : Server) (sid : Option Nat) : Bool :=
+  match sid with
+  | none => false
+  | some id =>
+    match findSession before id, findSession after id with
+    | some a, some b => a.state == .record && b.state == .preRecord
+    | _, _ => false
+
+/-- read deadlines after a request on connection `c` was answered without error -/
+def arm (before srv : Server) (c : Nat) : Server :=
+  { srv with conns := srv.conns.map fun x =>
+      if x.id == c then { x with hasDeadline := deadlineRule srv x }
+      else if pausedFromRecord before srv x.sess then { x with hasDeadline := true }
+      else x }
+
 /-- `handleRequestOuter` + the reader's reaction to its result: the response carries the request's
 CSeq (unless it was missing); a real error closes the connection after the response; a
-`switchReadFuncError` switches between the standard and the interleaved read loop. -/
+`switchReadFuncError` switches between the standard and the interleaved read loop; the read loop
+goes round and sets the next read deadline. -/
 def handleRequest (cfg : Config) (srv : Server) (cn : Conn) (r : Request) : Server × Resp :=
   let (srv1, res) := connInner cfg srv cn r
   let res' := { res with cseq := r.cseq }
-  if res.err == .fail then (closeConn srv1 cn.id, res') else (setMode srv1 cn.id res.err, res')
+  if res.err == .fail then (closeConn srv1 cn.id, res')
+  else (arm srv (setMode srv1 cn.id res.err) cn.id, res')
 
 /-- something that is not a request arrives on a connection: an RTSP response always ends the read
 loop (`ErrServerUnexpectedResponse`), an interleaved frame does so in the standard read loop
@@ -478,6 +512,18 @@ def nonRequest (srv : Server) (c : Nat) (isFrame : Bool) : Server :=
   match findConn srv c with
   | none => srv
   | some cn => if isFrame && cn.tcpMode then srv else closeConn srv c
+
+/-- Every peer is silent for longer than all timeouts: the connections that have a read deadline
+are closed when it expires, and the sessions that stream over UDP / multicast are ended by their
+stream check (which closes the connections attached to them).  What is left afterwards would stay
+for ever. -/
+def silence (srv : Server) : Server :=
+  let s1 := (srv.conns.filter (·.hasDeadline)).foldl (fun s cn => closeConn s cn.id) srv
+  (s1.sessions.filter fun ss => isStreaming ss.state && ss.transport != some .tcp).foldl
+    (fun s ss => endSession s ss.id) s1
+
+/-- media flows to a reader / from a publisher exactly while the session is in play / record -/
+def flows (ss : Session) : Bool := isStreaming ss.state
 
 /-! ## events -/
 
@@ -493,6 +539,8 @@ inductive Event
   | frame (c : Nat)
   /-- the client sends an RTSP response -/
   | response (c : Nat)
+  /-- every peer stays silent for longer than all timeouts -/
+  | silence
   deriving Repr, Inhabited
 
 /-- One event; the response (if any) is returned.  A request on a connection that is not open
@@ -509,6 +557,7 @@ def stepEv (cfg : Config) (srv : Server) : Event → Server × Option Resp
   | .expire sid => (endSession srv sid, none)
   | .frame c => (nonRequest srv c true, none)
   | .response c => (nonRequest srv c false, none)
+  | .silence => (silence srv, none)
 
 def run (cfg : Config) : Server → List Event → Server × List (Option Resp)
   | srv, [] => (srv, [])
